@@ -24,7 +24,8 @@ POOL = [':nth-child(2n+1)', ':lang(en)', ':-soup-contains("x")', ':dir(ltr)', ':
 def _custom(salt):
     # a fresh (never seen before) but structurally identical map per replay, so that no cache hidden anywhere
     # in the library can have been warmed by an earlier replay or by the dry run
-    return {':--al': 'i.s%d:lang(en), :--bl' % salt, ':--bl': 'b:nth-child(2)'}
+    # (the salted attribute NAME also makes every replay miss the memo of util.lower)
+    return {':--al': 'i.s%d[q%d]:lang(en), :--bl' % (salt, salt), ':--bl': 'b:nth-child(2)'}
 
 
 _SALT = [0]
@@ -86,6 +87,10 @@ def _winit():
     from soupsieve import css_parser as cp
     _W['cp'] = cp
     _W['ref'] = {}
+    # capacity state: every bounded memo of the library (compile cache: 500, util.lower: 512) is full before the first replay, so the
+    # eviction transitions of Cache.tla are the ones the interleavings run through
+    for n in range(700):
+        sv.compile('[w%dx%d]' % (os.getpid(), n))
     sys.setswitchinterval(1000)
 
 
@@ -199,7 +204,13 @@ def _line_preempt(args):
         bad = []
         expect = {}
         for op in (opa, opb):           # single-threaded expectations, computed AFTER the run
-            expect[op] = _fresh(op[1], salt) if op[0] == 'compile' else _do(op, salt)
+            try:
+                expect[op] = _fresh(op[1], salt) if op[0] == 'compile' else _do(op, salt)
+            except BaseException as e:  # noqa
+                bad.append('after the interleaving a single-threaded %s(%r) raises %s: shared state was left corrupted' % (op[0], op[1], type(e).__name__))
+        if bad:
+            out.append(((opa, opb, k, cnt[0]), bad))
+            continue
         for nm, op in (('a', opa), ('b', opb)):
             kind, r = res.get(nm, ('exc', 'no result'))
             if kind == 'exc':
@@ -294,8 +305,11 @@ def main(tier):
             always = lambda o: o[0] == 'fragmatch' or (o[0] == 'compile' and ':--' in o[1])  # noqa: E731
             pairs = [pr for n, pr in enumerate(pairs) if n % 5 == common.SEED % 5 or (always(pr[0]) and always(pr[1]))]
         for (x, y) in pairs:
-            for start in range(1 + (zlib.crc32(repr(x).encode()) % step), limit, 60 * step):
-                jobs.append((x, y, list(range(start, start + 60 * step, step))))
+            # the pairs that go through shared mutable state on a memo MISS (salted alias definitions, detached fragments) are pre-empted at
+            # EVERY line in both tiers; the others at every 9th line in the quick tier
+            st = 1 if (x[0] == 'fragmatch' or (x[0] == 'compile' and ':--' in x[1])) and (y[0] == 'fragmatch' or (y[0] == 'compile' and ':--' in y[1])) else step
+            for start in range(1 + (zlib.crc32(repr(x).encode()) % st), limit, 60 * st):
+                jobs.append((x, y, list(range(start, start + 60 * st, st))))
         npre = 0
         for out in pool.imap_unordered(_line_preempt, jobs, chunksize=2):
             for (opa, opb, k, total), bad in out:
